@@ -568,7 +568,7 @@ var Rules = []report.Rule{
 	{ID: "S5", Floor: 2, Props: []string{"C01"}, Text: "every insertion into the ready list is dominated by `job.remaining == 0` with no write to remaining in between"},
 	{ID: "S6", Floor: 8, Props: []string{"C01", "C03"}, Text: "the only send of a job to workers sends ready.Front(), is enabled only when one was chosen this iteration, and its arm removes exactly that element; all channel sends of the package are classified"},
 	{ID: "S7", Floor: 4, Props: []string{"C01", "C05"}, Text: "remaining is written only as +1 (paired with registration in a not-done dependency's consumer list) and -1 (once per consumer of a finished job, unconditionally)"},
-	{ID: "S8", Floor: 1, Props: []string{"C01", "C08", "C05"}, Text: "the result arm marks the finished job done before branching"},
+	{ID: "S8", Floor: 3, Props: []string{"C01", "C08", "C05"}, Text: "the result arm marks the finished job done before branching"},
 	{ID: "S9", Floor: 7, Props: []string{"C03", "C06"}, Text: "the go statements of packages scheduler and cff are exactly: spawner, loop, N workers in a counted loop, one replacement per dying worker; none is reachable from Enqueue, the loop or Wait"},
 	{ID: "S10", Floor: 3, Props: []string{"C03", "C05", "C06"}, Text: "ready channel is unbuffered; result channel capacity is the defaulted Concurrency, the same value that bounds the worker-spawn loop and is reported"},
 	{ID: "S11", Floor: 1, Props: []string{"C03"}, Text: "job.run has exactly one call site: a synchronous call in the worker's receive loop"},
@@ -582,7 +582,7 @@ var Rules = []report.Rule{
 	{ID: "S19", Floor: 2, Props: []string{"C05"}, Text: "the result arm is never disabled; the enqueue arm only after close"},
 	{ID: "S20", Floor: 4, Props: []string{"C05", "C07", "C09"}, Text: "Wait closes the enqueue channel, then selects on exactly ctx.Done (→ ctx.Err()) and finished (→ s.err, else ctx.Err())"},
 	{ID: "S21", Floor: 2, Props: []string{"C12", "C09", "C05"}, Text: "Enqueue only builds {ctx, run, deps}, sends it and returns it"},
-	{ID: "S22", Floor: 4, Props: []string{"C08"}, Text: "continue mode: job.err recorded first; every consumer invalidated; multierr.Append exactly for non-sentinel errors"},
+	{ID: "S22", Floor: 4, Props: []string{"C08", "C01"}, Text: "continue mode: job.err recorded first; every consumer invalidated; multierr.Append exactly for non-sentinel errors"},
 	{ID: "S23", Floor: 1, Props: []string{"C08", "C01", "C05"}, Text: "a job enqueued after a dependency failed is invalidated and does not wait for it"},
 	{ID: "S24", Floor: 3, Props: []string{"C08"}, Text: "the sentinel is unexported and used only by the worker assignment and the loop's filter"},
 	{ID: "S25", Floor: 8, Props: []string{"C19"}, Text: "every path through every select arm keeps pending = |ready| + waiting + ongoing; counters start at 0"},
@@ -590,6 +590,7 @@ var Rules = []report.Rule{
 	{ID: "S27", Floor: 1, Props: []string{"C06", "C19"}, Text: "dispatch is enabled only while ongoing < concurrency (outstanding results fit the result buffer)"},
 	{ID: "S28", Floor: 1, Props: []string{"C19"}, Text: "Emitter.Emit is called only inside the loop body"},
 	{ID: "S29", Floor: 6, Props: []string{"C03", "C08", "C19"}, Text: "SchedulerParams → Config → Scheduler forwarding of Concurrency, ContinueOnError, Emitter"},
+	{ID: "S30", Floor: 3, Props: []string{"C05", "C09", "C07"}, Text: "every blocking operation of the scheduler loop (outside its deferred closures) is a communication of its single select"},
 	{ID: "L5", Floor: 2, Props: []string{"C19"}, Text: "the scheduler-emitter adapter forwards the state unchanged"},
 }
 
